@@ -1497,8 +1497,11 @@ fn calculate_stableswap_d(
     // Calculate ann = amp * n_coins
     let ann = calculate_ann(amp, n_coins)?;
 
-    // Use newton_raphson_iterate for the approximation
-    let precision_threshold = Decimal256::one();
+    // Use newton_raphson_iterate for the approximation. D is expressed in whole tokens with 18
+    // decimals, so the iteration has to continue until the step is far below one smallest unit
+    // of any supported asset (a threshold of one whole token stops while D is still off by up to
+    // a token, which underprices every swap on small or skewed pools)
+    let precision_threshold = Decimal256::raw(1_000_000u128);
 
     newton_raphson_iterate(
         sum_pools,
